@@ -188,6 +188,7 @@ def applyTuple : VEnv α → List String → List (TVal α) → VEnv α
 /-- `to_primitive_set` -/
 def toPrimitiveSet : TVal α → Except TErr (List (TVal α))
   | .arr _ vs => .ok vs
+  | .tuple vs => .ok vs
   | .scalar _ => .error .unspreadable
 
 /-- one element bound to the pattern -/
@@ -209,7 +210,7 @@ def indexValue (r : VEnv α) : TE α → Except TErr (TVal α)
 def fragmentValue : TVal α → Except TErr (Prim α)
   | .scalar (.other _) => .error .wrongExpectedArgument
   | .scalar p => .ok p
-  | .arr _ _ => .error .wrongExpectedArgument
+  | _ => .error .wrongExpectedArgument
 
 /-- `recursive_set_resolver`: `leaf` once per combination of elements, results in generation order -/
 def runIts {β : Type} (leaf : VEnv α → Except TErr β) : VEnv α → List (TIt α) → Except TErr (List β)
@@ -219,12 +220,12 @@ def runIts {β : Type} (leaf : VEnv α → Except TErr β) : VEnv α → List (T
   | r, it :: rest => do
     let r0 ← declareUndef r it.vars
     match (← it.over.eval r0) with
-    | .scalar _ => .error .wrongArgument      -- `as_iterator`
     | .arr _ elems =>
       let leaves ← mapT (fun x => do
         let r1 ← bindElem r0 it x
         runIts leaf r1 rest) elems
       pure leaves.flatten
+    | _ => .error .wrongArgument      -- `as_iterator`
 
 /-- `compute_indexes` + `flatten_variable_name`: the index values of a name -/
 def nameIndexLeaf (idx : List (TE α)) (r : VEnv α) : Except TErr (List (Prim α)) := do
@@ -240,7 +241,7 @@ def runFor (r : VEnv α) (its : List (TIt α)) (idx : List (TE α)) : Except TEr
 def numOf (v : TVal α) : Except TErr α :=
   match v with
   | .scalar p => match asNumberCast p with | .ok x => .ok x | .error _ => .error .wrongArgument
-  | .arr _ _ => .error .wrongArgument
+  | _ => .error .wrongArgument
 
 def evalNumBound (r : VEnv α) (dflt : α) : Option (TE α) → Except TErr α
   | none => .ok dflt
